@@ -29,4 +29,4 @@ _r14_1.__name__ = 'r14_1'
 
 def run(ctx):
     import engine
-    engine.run_rules(ctx, [dt.r05_1, dt.r05_2, dt.r05_3, dt.r05_4, dt.r05_6, dt.r05_7, dt.r02_1, dt.r02_3, dt.r03_2, dt.r03_3, dt.r02_6, dt.r02_7, ras.r01_10, dt.r06_3, ras.r10_1, _r14_1])
+    engine.run_rules(ctx, [dt.r05_1, dt.r05_2, dt.r05_3, dt.r05_4, dt.r05_6, dt.r05_7, dt.r02_1, dt.r02_3, dt.r03_2, dt.r03_3, dt.r02_6, dt.r02_7, ras.r01_10, dt.r06_3, ras.r10_1, _r14_1, dt.r05_8])
